@@ -113,8 +113,32 @@ def _tb(task):
         return guarded(_reraise)
 
 
+def verilog_emitters(ctx):
+    """P: the `assign` statement the real loop body of _to_verilog_combinational prints for one net, read
+    under the IEEE 1364-2001 width rules, equals the documented value - all widths and operand values."""
+    from contracts import verilog as V
+    from pyvc import engine as E
+    from pyvc import run as prun
+    fn = 'pyrtl.importexport._to_verilog_combinational'
+    vcs = []
+    for c in V.CASES:
+        try:
+            vcs += V.vcs_for_case(c)
+        except E.Unsupported as e:
+            ctx.obligation('_to_verilog_combinational[%s]:symbolic-execution' % V.case_name(c), fn, 'undecided',
+                           'pyvc', 0.0, detail='unsupported construct: %s' % e)
+    prun.run_vcs(ctx, fn, vcs, E.source_hash('pyrtl.importexport', '_to_verilog_combinational'),
+                 key='_to_verilog_combinational[')
+    ctx.assume('Verilog per-net emitters: the text printed by the real loop body is parsed with spec/vsem.py and '
+               'evaluated over mathematical integers under the IEEE 1364-2001 expression width rules with symbolic '
+               'widths (contracts/verilog.py); operand names are placeholders declared at the width of the wire '
+               'they stand for; select parameters and concat arities are the listed shapes; constants, registers, '
+               'memories, declarations and the testbench: bounded families')
+
+
 def run(ctx):
     import fam.vlogcheck  # noqa: F401 (registers odd_names)
+    verilog_emitters(ctx)
     fam = designs.family(ctx.tier, ctx.seed) + [{'name': 'odd_names', 'params': {'w': 3}}] + \
         [d for d in designs.wide_family(ctx.tier) if d['params'].get('w', 0) in (1, 33, 65) or d['name'] != 'wide_ops']
     tasks = [(d, ar) for d in fam for ar in (True, False, 'asynchronous')]
@@ -182,6 +206,7 @@ def run(ctx):
                sample=ttasks[0])
     ctx.assume('Verilog semantics = spec/vsem.py reading of IEEE 1364-2001 for the emitted subset; name mapping '
                'by the exporter\'s own sanitiser in name order; unsized decimal literals read as exact values')
-    return ctx.finish('translation_validation', './check C05', ['z3', 'spec/vsem.py', 'elab/n2smt.py'],
-                      'translation validation of the emitted module per design (all inputs/states by SMT) and '
-                      'parsed testbench contents')
+    return ctx.finish('translation_validation', './check C05', ['z3', 'pyvc', 'spec/vsem.py', 'elab/n2smt.py'],
+                      'P: the assign statement printed by the real per-net emitter, read under the Verilog-2001 width '
+                      'rules, equals the documented value for all widths/values; PB/B: translation validation of the '
+                      'emitted module per design (all inputs/states by SMT) and parsed testbench contents')
